@@ -91,7 +91,7 @@ impl Property for C03 {
         "C03"
     }
     fn plan(&self, tier: Tier) -> Vec<Segment> {
-        vec![Segment::random("short", tier.pick(360_000, 6_400_000), &[0], 8, 400), Segment::random("long", tier.pick(36_000, 800_000), &[1], 8, 2000), Segment::enumerated("skewed-long", tier.pick(36, 216), &[2])]
+        vec![Segment::random("short", tier.pick(360_000, 6_400_000), &[0], 8, 400), Segment::random("long", tier.pick(36_000, 800_000), &[1], 8, 2000), Segment::enumerated("skewed-long", tier.pick(54, 324), &[2])]
     }
     fn rule(&self) -> &'static str {
         "case = (n, gap list with duplicate runs / powers of two / huge gaps, first element, u in {last, last+1, last*2^j-1, >= last, usize::MAX-k, n*2^k+-1}, builder in {push, extend, From<slice>, concurrent set in random order}, one of 9 selection back-ends) decoded from bytes, plus an enumerated segment of long skewed sequences (4096a dense values and a sparse tail whose inventory entry in the upper-bits selector spans 2^k-1, 2^k, 2^k+1 bits, k=16..21; 70000..1.7 million values); oracle = the input vector; observed len, get, iter, into_iter, iter_from/into_iter_from at every start (sampled above 128) with ExactSizeIterator::len/size_hint; illegal pushes (out of order, above u, n+1-th, non-monotone slice) must panic and leave the builder usable. Every iterator is also driven through a generated script of next/nth/size_hint steps and one consuming adaptor (count, last, collect, step_by, skip, fold) in lock-step with the model's iterator. Non-trivial: n>=2 with at least one non-zero gap, or labels n=0&u>0, n=1, last=u, dup_run>=64, u>=2^63, u/n~2^k; distinct = distinct hash of the decoded case."
